@@ -333,6 +333,8 @@ class Lab:
                     if _name in ("upload", "rename", "delete") and a:
                         obj = self.p[_side]._mock_fs.get(a[0])
                         rec[2] = rec[2] + ["@" + str(obj.path if obj is not None else None)]
+                        if _name == "delete":
+                            rec.append({"existed": bool(obj is not None and obj.exists)})
                     if _name in ("create", "upload") and len(a) > 1 and hasattr(a[1], "read"):
                         # spurious transfer = the target already holds exactly this content at this path
                         try:
